@@ -1,1 +1,15 @@
 //! Hooks owned by property C04 (feature `verif-hooks`).
+
+/// One entry of `Module::functions` (the table `Package::get_function`
+/// consults): see `Package::verif_c04_function_table`.
+#[derive(Clone, Debug, PartialEq, Eq)]
+pub struct TableEntry {
+    /// the mangled name the entry is stored under (`pkg.f`, `pkg.test#t`,
+    /// `::generated::drop_12`)
+    pub key: String,
+    /// `FunctionInfo::return_by_ref`
+    pub return_by_ref: bool,
+    /// `FunctionInfo::signature`: parameter types and return type as text;
+    /// `None` for an entry that carries no signature
+    pub signature: Option<(Vec<String>, String)>,
+}
